@@ -2139,6 +2139,13 @@ package apd
 //@ define MantText(s: []byte, p: int, z: int, C: int, dot: bool, a: int): bool = ite(dot, 0 <= a && a <= z + nd10(C) && mseg(s, p, z, C, 0, a) && s[p + a] == 46 && mseg(s, p + a + 1, z, C, a, z + nd10(C) - a), mseg(s, p, z, C, 0, z + nd10(C)))
 //@ define ExpText(s: []byte, q: int, hase: bool, ech: int, esg: int, ez: int, X: int): bool = ite(hase, (ech == 69 || ech == 101) && s[q] == ech && (esg == 0 || esg == 43 || esg == 45) && (esg != 0 ==> s[q + 1] == esg) && filled(s, q + 1 + ite(esg == 0, 0, 1), ez, 48) && dseg(s, q + 1 + ite(esg == 0, 0, 1) + ez, X, 0, nd10(X)) && len(s) == q + 1 + ite(esg == 0, 0, 1) + ez + nd10(X), len(s) == q)
 //@ define GramText(s: []byte, neg: bool, plus: bool, z: int, C: int, dot: bool, a: int, hase: bool, ech: int, esg: int, ez: int, X: int): bool = !(neg && plus) && (neg ==> len(s) > 0 && s[0] == 45) && (plus ==> len(s) > 0 && s[0] == 43) && z >= 0 && C >= 0 && X >= 0 && ez >= 0 && MantText(s, ite(neg || plus, 1, 0), z, C, dot, a) && ExpText(s, ite(neg || plus, 1, 0) + z + nd10(C) + ite(dot, 1, 0), hase, ech, esg, ez, X)
+// Special values of the grammar: inf / infinity / nan / snan in any mixture of upper and lower case, nan and snan with an
+// optional payload of digits (z zeros and the decimal text of C; ignored by the parser but validated).
+//@ define CI(s: []byte, k: int, ch: int): bool = s[k] == ch || s[k] == ch - 32
+//@ define SgnText(s: []byte, neg: bool, plus: bool): bool = !(neg && plus) && (neg ==> len(s) > 0 && s[0] == 45) && (plus ==> len(s) > 0 && s[0] == 43)
+//@ define InfText(s: []byte, p: int): bool = (len(s) == p + 3 && CI(s, p, 105) && CI(s, p + 1, 110) && CI(s, p + 2, 102)) || (len(s) == p + 8 && CI(s, p, 105) && CI(s, p + 1, 110) && CI(s, p + 2, 102) && CI(s, p + 3, 105) && CI(s, p + 4, 110) && CI(s, p + 5, 105) && CI(s, p + 6, 116) && CI(s, p + 7, 121))
+//@ define NanText(s: []byte, p: int, haspay: bool, z: int, C: int): bool = CI(s, p, 110) && CI(s, p + 1, 97) && CI(s, p + 2, 110) && ite(haspay, z >= 0 && C >= 0 && len(s) == p + 3 + z + nd10(C) && mseg(s, p + 3, z, C, 0, z + nd10(C)), len(s) == p + 3)
+//@ define SnanText(s: []byte, p: int, haspay: bool, z: int, C: int): bool = CI(s, p, 115) && CI(s, p + 1, 110) && CI(s, p + 2, 97) && CI(s, p + 3, 110) && ite(haspay, z >= 0 && C >= 0 && len(s) == p + 4 + z + nd10(C) && mseg(s, p + 4, z, C, 0, z + nd10(C)), len(s) == p + 4)
 //@ define GramFrac(z: int, C: int, dot: bool, a: int): int = ite(dot, z + nd10(C) - a, 0)
 //@ define GramExp(z: int, C: int, dot: bool, a: int, hase: bool, esg: int, X: int): int = ite(hase, ite(esg == 45, -X, X), 0) - GramFrac(z, C, dot, a)
 // FinText: s is the text the formatter writes for the finite decimal (neg, C, E): plain notation (exponent <= 0) or scientific
@@ -2179,6 +2186,11 @@ package apd
 //@   ensures {C14} [gr_fin3b] ctxsane(c) && GramText(bytes(s), gneg, gplus, gz, gC, gdot, ga, ghase, gech, gesg, gez, gX) && gX <= 100000 && GramFrac(gz, gC, gdot, ga) <= 100000 && inlimits0(c, gC, GramExp(gz, gC, gdot, ga, ghase, gesg, gX)) && gdot && ghase ==> d.Form == Finite && d.Negative == gneg
 //@   ensures {C14} [gr_fin3c] ctxsane(c) && GramText(bytes(s), gneg, gplus, gz, gC, gdot, ga, ghase, gech, gesg, gez, gX) && gX <= 100000 && GramFrac(gz, gC, gdot, ga) <= 100000 && inlimits0(c, gC, GramExp(gz, gC, gdot, ga, ghase, gesg, gX)) && gdot && ghase ==> val(d.Coeff) == gC
 //@   ensures {C14} [gr_fin3d] ctxsane(c) && GramText(bytes(s), gneg, gplus, gz, gC, gdot, ga, ghase, gech, gesg, gez, gX) && gX <= 100000 && GramFrac(gz, gC, gdot, ga) <= 100000 && inlimits0(c, gC, GramExp(gz, gC, gdot, ga, ghase, gesg, gX)) && gdot && ghase ==> d.Exponent == GramExp(gz, gC, gdot, ga, ghase, gesg, gX)
+//@   ensures {C14} [gr_inf] SgnText(bytes(s), gneg, gplus) && InfText(bytes(s), ite(gneg || gplus, 1, 0)) ==> ret1 == nil && ret0 == 0 && d.Form == Infinite && d.Negative == gneg && val(d.Coeff) == 0 && d.Exponent == 0
+//@   ensures {C14} [gr_nan] SgnText(bytes(s), gneg, gplus) && NanText(bytes(s), ite(gneg || gplus, 1, 0), gdot, gz, gC) && gC < 18446744073709551616 ==> ret1 == nil && ret0 == 0 && d.Form == NaN && d.Negative == gneg && val(d.Coeff) == 0 && d.Exponent == 0
+//@   ensures {C14} [gr_snan] SgnText(bytes(s), gneg, gplus) && SnanText(bytes(s), ite(gneg || gplus, 1, 0), gdot, gz, gC) && gC < 18446744073709551616 ==> ret1 == nil && ret0 == 0 && d.Form == NaNSignaling && d.Negative == gneg && val(d.Coeff) == 0 && d.Exponent == 0
+//@   ensures {C14} [gr_pay_long] SgnText(bytes(s), gneg, gplus) && (NanText(bytes(s), ite(gneg || gplus, 1, 0), true, gz, gC) || SnanText(bytes(s), ite(gneg || gplus, 1, 0), true, gz, gC)) && gC >= 18446744073709551616 ==> ret1 == nil
+//@   assert before strconv.ParseUint#1: {C14} [pay_gr] SgnText(bytes(orig), gneg, gplus) && (NanText(bytes(orig), ite(gneg || gplus, 1, 0), gdot, gz, gC) || SnanText(bytes(orig), ite(gneg || gplus, 1, 0), gdot, gz, gC)) && gdot ==> uf_utext(arg0, gz, gC) == 1
 //@   assert before strings.IndexByte#2: {C14} [dotpos_gr] ctxsane(c) && GramText(bytes(orig), gneg, gplus, gz, gC, gdot, ga, ghase, gech, gesg, gez, gX) && gX <= 100000 && gdot ==> len(bytes(arg0)) == gz + nd10(gC) + 1 && bytes(arg0)[ga] == 46
 //@   assert before strconv.ParseInt#1: {C14} [epos_gr] ctxsane(c) && GramText(bytes(orig), gneg, gplus, gz, gC, gdot, ga, ghase, gech, gesg, gez, gX) && gX <= 100000 && ghase ==> i == gz + nd10(gC) + ite(gdot, 1, 0) && len(bytes(now(s))) == len(bytes(orig)) - ite(gneg || gplus, 1, 0)
 //@   assert before strconv.ParseInt#1: {C14} [expo_gr] ctxsane(c) && GramText(bytes(orig), gneg, gplus, gz, gC, gdot, ga, ghase, gech, gesg, gez, gX) && gX <= 100000 && ghase ==> uf_ntext(arg0, gesg, gez, gX) == 1
@@ -2216,6 +2228,9 @@ package apd
 //@   requires writable(d)
 //@   assigns d
 //@   ghost gneg: bool, gC: int, gE: int, gech: int, gform: int, gplus: bool, gz: int, ga: int, gdot: bool, ghase: bool, gesg: int, gez: int, gX: int
+//@   ensures {C14} [gr_inf] SgnText(bytes(s), gneg, gplus) && InfText(bytes(s), ite(gneg || gplus, 1, 0)) ==> ret2 == nil && d.Form == Infinite && d.Negative == gneg
+//@   ensures {C14} [gr_nan] SgnText(bytes(s), gneg, gplus) && NanText(bytes(s), ite(gneg || gplus, 1, 0), gdot, gz, gC) && gC < 18446744073709551616 ==> ret2 == nil && d.Form == NaN && d.Negative == gneg
+//@   ensures {C14} [gr_snan] SgnText(bytes(s), gneg, gplus) && SnanText(bytes(s), ite(gneg || gplus, 1, 0), gdot, gz, gC) && gC < 18446744073709551616 ==> ret2 == nil && d.Form == NaNSignaling && d.Negative == gneg
 //@   ensures {C14} [gr_fin] GramText(bytes(s), gneg, gplus, gz, gC, gdot, ga, ghase, gech, gesg, gez, gX) && gX <= 100000 && GramFrac(gz, gC, gdot, ga) <= 100000 && inlimitsB(gC, GramExp(gz, gC, gdot, ga, ghase, gesg, gX)) ==> ret2 == nil && ret0 == d && ret1 == 0 && d.Form == Finite && d.Negative == gneg && val(d.Coeff) == gC && d.Exponent == GramExp(gz, gC, gdot, ga, ghase, gesg, gX)
 //@   ensures {C13,C14} [rt_fin] inlimitsB(gC, gE) && FinText(bytes(s), gneg, gC, gE, gech) ==> ret2 == nil && ret0 == d && ret1 == 0 && d.Form == Finite && d.Negative == gneg && val(d.Coeff) == gC && d.Exponent == gE
 //@   ensures {C13,C14} [rt_spec] SpecText(bytes(s), gform, gneg) ==> ret2 == nil && ret0 == d && d.Form == gform && d.Negative == gneg
@@ -2226,6 +2241,9 @@ package apd
 //@   requires writable(d)
 //@   assigns d
 //@   ghost gneg: bool, gC: int, gE: int, gech: int, gform: int, gplus: bool, gz: int, ga: int, gdot: bool, ghase: bool, gesg: int, gez: int, gX: int
+//@   ensures {C14} [gr_inf] p0ctx(c) && SgnText(bytes(s), gneg, gplus) && InfText(bytes(s), ite(gneg || gplus, 1, 0)) ==> ret2 == nil && d.Form == Infinite && d.Negative == gneg
+//@   ensures {C14} [gr_nan] p0ctx(c) && SgnText(bytes(s), gneg, gplus) && NanText(bytes(s), ite(gneg || gplus, 1, 0), gdot, gz, gC) && gC < 18446744073709551616 ==> ret2 == nil && d.Form == NaN && d.Negative == gneg
+//@   ensures {C14} [gr_snan] p0ctx(c) && SgnText(bytes(s), gneg, gplus) && SnanText(bytes(s), ite(gneg || gplus, 1, 0), gdot, gz, gC) && gC < 18446744073709551616 ==> ret2 == nil && d.Form == NaNSignaling && d.Negative == gneg
 //@   ensures {C14} [gr_fin] p0ctx(c) && GramText(bytes(s), gneg, gplus, gz, gC, gdot, ga, ghase, gech, gesg, gez, gX) && gX <= 100000 && GramFrac(gz, gC, gdot, ga) <= 100000 && inlimits0(c, gC, GramExp(gz, gC, gdot, ga, ghase, gesg, gX)) ==> ret2 == nil && ret0 == d && ret1 == 0 && d.Form == Finite && d.Negative == gneg && val(d.Coeff) == gC && d.Exponent == GramExp(gz, gC, gdot, ga, ghase, gesg, gX)
 //@   ensures {C13,C14} [rt_fin] p0ctx(c) && inlimits0(c, gC, gE) && FinText(bytes(s), gneg, gC, gE, gech) ==> ret2 == nil && ret0 == d && ret1 == 0 && d.Form == Finite && d.Negative == gneg && val(d.Coeff) == gC && d.Exponent == gE
 //@   ensures {C13,C14} [rt_spec] p0ctx(c) && SpecText(bytes(s), gform, gneg) ==> ret2 == nil && ret0 == d && d.Form == gform && d.Negative == gneg
@@ -2239,6 +2257,9 @@ package apd
 //@   assigns nothing
 //@   allocates
 //@   ghost gneg: bool, gC: int, gE: int, gech: int, gform: int, gplus: bool, gz: int, ga: int, gdot: bool, ghase: bool, gesg: int, gez: int, gX: int
+//@   ensures {C14} [gr_inf] p0ctx(c) && SgnText(bytes(s), gneg, gplus) && InfText(bytes(s), ite(gneg || gplus, 1, 0)) ==> ret2 == nil && ret0.Form == Infinite && ret0.Negative == gneg
+//@   ensures {C14} [gr_nan] p0ctx(c) && SgnText(bytes(s), gneg, gplus) && NanText(bytes(s), ite(gneg || gplus, 1, 0), gdot, gz, gC) && gC < 18446744073709551616 ==> ret2 == nil && ret0.Form == NaN && ret0.Negative == gneg
+//@   ensures {C14} [gr_snan] p0ctx(c) && SgnText(bytes(s), gneg, gplus) && SnanText(bytes(s), ite(gneg || gplus, 1, 0), gdot, gz, gC) && gC < 18446744073709551616 ==> ret2 == nil && ret0.Form == NaNSignaling && ret0.Negative == gneg
 //@   ensures {C14} [gr_fin] p0ctx(c) && GramText(bytes(s), gneg, gplus, gz, gC, gdot, ga, ghase, gech, gesg, gez, gX) && gX <= 100000 && GramFrac(gz, gC, gdot, ga) <= 100000 && inlimits0(c, gC, GramExp(gz, gC, gdot, ga, ghase, gesg, gX)) ==> ret2 == nil && ret0 != nil && ret1 == 0 && ret0.Form == Finite && ret0.Negative == gneg && val(ret0.Coeff) == gC && ret0.Exponent == GramExp(gz, gC, gdot, ga, ghase, gesg, gX)
 //@   ensures {C13,C14} [rt_fin] p0ctx(c) && inlimits0(c, gC, gE) && FinText(bytes(s), gneg, gC, gE, gech) ==> ret2 == nil && ret0 != nil && ret1 == 0 && ret0.Form == Finite && ret0.Negative == gneg && val(ret0.Coeff) == gC && ret0.Exponent == gE
 //@   ensures {C13,C14} [rt_spec] p0ctx(c) && SpecText(bytes(s), gform, gneg) ==> ret2 == nil && ret0 != nil && ret0.Form == gform && ret0.Negative == gneg
@@ -2250,6 +2271,9 @@ package apd
 //@   allocates
 //@   assert before (*Context).NewFromString#1: [basectx] BaseContext.Precision == 0 && BaseContext.MaxExponent == 100000 && BaseContext.MinExponent == -100000
 //@   ghost gneg: bool, gC: int, gE: int, gech: int, gform: int, gplus: bool, gz: int, ga: int, gdot: bool, ghase: bool, gesg: int, gez: int, gX: int
+//@   ensures {C14} [gr_inf] SgnText(bytes(s), gneg, gplus) && InfText(bytes(s), ite(gneg || gplus, 1, 0)) ==> ret2 == nil && ret0.Form == Infinite && ret0.Negative == gneg
+//@   ensures {C14} [gr_nan] SgnText(bytes(s), gneg, gplus) && NanText(bytes(s), ite(gneg || gplus, 1, 0), gdot, gz, gC) && gC < 18446744073709551616 ==> ret2 == nil && ret0.Form == NaN && ret0.Negative == gneg
+//@   ensures {C14} [gr_snan] SgnText(bytes(s), gneg, gplus) && SnanText(bytes(s), ite(gneg || gplus, 1, 0), gdot, gz, gC) && gC < 18446744073709551616 ==> ret2 == nil && ret0.Form == NaNSignaling && ret0.Negative == gneg
 //@   ensures {C14} [gr_fin] GramText(bytes(s), gneg, gplus, gz, gC, gdot, ga, ghase, gech, gesg, gez, gX) && gX <= 100000 && GramFrac(gz, gC, gdot, ga) <= 100000 && inlimitsB(gC, GramExp(gz, gC, gdot, ga, ghase, gesg, gX)) ==> ret2 == nil && ret0 != nil && ret1 == 0 && ret0.Form == Finite && ret0.Negative == gneg && val(ret0.Coeff) == gC && ret0.Exponent == GramExp(gz, gC, gdot, ga, ghase, gesg, gX)
 //@   ensures {C13,C14} [rt_fin] inlimitsB(gC, gE) && FinText(bytes(s), gneg, gC, gE, gech) ==> ret2 == nil && ret0 != nil && ret1 == 0 && ret0.Form == Finite && ret0.Negative == gneg && val(ret0.Coeff) == gC && ret0.Exponent == gE
 //@   ensures {C13,C14} [rt_spec] SpecText(bytes(s), gform, gneg) ==> ret2 == nil && ret0 != nil && ret0.Form == gform && ret0.Negative == gneg
